@@ -11,7 +11,7 @@ one() {
   id=$1; wt=/tmp/mut/$id/wt
   [ -d $wt ] || git -C /repo worktree add --detach $wt HEAD >/dev/null 2>&1
   git -C $wt checkout -q -- . ; git -C $wt checkout -q --detach $HEAD
-  for d in /verif/seeded/$id-*; do
+  for d in /verif/seeded/$id-${SUFFIX:-*}; do
     n=$(basename $d)
     VERIF_DEV_OVERRIDE=none TAILN=400 /verif/tools/try_mut.sh $id $d/patch.diff > /verif/build/seeded/$n.log 2>&1
   done
